@@ -14,5 +14,6 @@ open(p,'w').write(s.replace(old,new,1))
 PY
 for c in $checks; do
   out=$(TICCMON_EVIDENCE_DIR="$wt/.ev" TICCMON_REPLAY_DIR="$wt/.rp" FAST_TICC_REPO="$wt" /verif/check "$c" --tier "$tier" 2>&1); rc=$?
-  echo "== $c rc=$rc :: $(echo "$out" | grep -E 'witness|INCONCLUSIVE' | head -2 | cut -c1-300)"
+  if [ $rc -eq 1 ] && ! echo "$out" | grep -q "^VIOLATION property="; then rc=3; fi   # exit 1 without a VIOLATION line = harness crash
+  echo "== $c rc=$rc :: $(echo "$out" | grep -E 'witness|INCONCLUSIVE|Error' | head -2 | cut -c1-300)"
 done
